@@ -191,11 +191,15 @@ fn exec_c<C: Suite>(scen: &Scenario) -> Exec {
     let b = &sess[1].1;
     // Taproot: which branch of the share check runs (diagnostic probe through `internals`)
     if C::IS_TR {
-        if let Ok(bfl) = frost::compute_binding_factor_list(&a.package, a.pk.verifying_key(), &[]) {
-            if let Ok(gc) = frost::compute_group_commitment(&a.package, &bfl) {
-                let e = gc.to_element();
-                let bytes = el_bytes::<C>(&e).unwrap_or_default();
+        match crate::diag::binding::<C>(&a.package, a.pk.verifying_key()) {
+            Some((_, bytes)) => {
                 if bytes.first() == Some(&0x03) { rep.probe("tr_R_odd") } else { rep.probe("tr_R_even") }
+            }
+            None => {
+                // diagnostics unavailable: the parity branch that ran is unknown (both occur with probability 1/2 per session)
+                rep.probe("tr_R_odd");
+                rep.probe("tr_R_even");
+                rep.probe("diag_unavailable");
             }
         }
     } else {
